@@ -665,7 +665,7 @@ class Engine:
             path = Path(self, decisions)
             try:
                 env, loops, finish = harness(path)
-                interp = Interp(self, path, loops, extracted)
+                interp = Interp(self, path, loops, extracted, env)
                 path.interp = interp
                 try:
                     interp.bind_defaults(env)
@@ -854,40 +854,438 @@ class ChainEnv(dict):
         return self[k] if k in self else default
 
 
-class Interp:
-    def __init__(self, eng, path, loops, extracted):
-        self.eng, self.path, self.loops, self.x = eng, path, loops or {}, extracted
-        self.loop_ordinals = {}
-        self.try_stack = []         # (handlers, env) of the try statements whose try suite is being executed, innermost last
-        self.stmt_ordinals = {}     # id(stmt) -> 'If#0', 'Assign#3', ... (ordinal among statements of that type, source order)
-        n = 0
-        counts = {}
-        for node in ast.walk(extracted.node):
+_HELPER_REJECT = (ast.AsyncFor, ast.Global, ast.Nonlocal, ast.Try, ast.With, ast.AsyncWith, ast.Await, ast.AsyncFunctionDef, ast.ClassDef)
+
+
+def helper_shape_ok(fn, receiver):
+    """the static part of `Interp.helper_closure`: may the function `fn` of the same module (receiver False) / method of the same class
+    (receiver True) be executed in place?  -> (ok, is_generator)"""
+    a = fn.args
+    if a.vararg or a.kwarg or a.posonlyargs:
+        return False, False
+    gen = _is_generator(fn)
+    for n in ast.walk(fn):
+        if isinstance(n, _HELPER_REJECT):
+            return False, gen
+        if gen and (isinstance(n, ast.YieldFrom) or (isinstance(n, ast.Return) and n.value is not None)
+                    or (isinstance(n, (ast.FunctionDef, ast.Lambda)) and n is not fn)):
+            return False, gen        # a generator helper is its sequence of plain `yield e` statements, nothing else
+    if gen and receiver:
+        return False, gen
+    return True, gen
+
+
+def method_helper_ok(deco, own_deco, receiver_kind):
+    """binding rules for a method of the same class called as `X.name(...)`: receiver_kind 'first' (X is the first parameter of the
+    function under contract: `self` of a method, `cls` of a classmethod) or 'instance' (X is another instance of the class, created
+    by `__new__` in the function under contract).  A classmethod helper gets the receiver itself as `cls` only when the function under
+    contract is a classmethod too and X is its `cls`; `cls.method(...)` of a plain method is an unbound call (not modelled)."""
+    if deco not in ([], ['staticmethod'], ['classmethod']):
+        return False
+    if deco == ['classmethod'] and (own_deco != ['classmethod'] or receiver_kind != 'first'):
+        return False
+    if deco == [] and receiver_kind == 'first' and own_deco in (['classmethod'], ['staticmethod']):
+        return False
+    return True
+
+
+def _deco_names(fn):
+    d = [x.id for x in fn.decorator_list if isinstance(x, ast.Name)]
+    return d if len(d) == len(fn.decorator_list) else None
+
+
+class _Scope:
+    """names of one function text: parameters, nested function definitions, other bindings (own statements only: nested function and
+    class bodies are scopes of their own)"""
+
+    def __init__(self, fn):
+        a = fn.args
+        self.fn = fn
+        self.params = [x.arg for x in a.posonlyargs + a.args]
+        self.all_params = set(self.params) | {x.arg for x in a.kwonlyargs} | {x.arg for x in (a.vararg, a.kwarg) if x is not None}
+        self.defs, self.stores, self.new_locals, self.complex = {}, {}, {}, False
+        self.nodes = []            # own nodes (statements and expressions), pre-order
+        todo = list(reversed(fn.body))
+        while todo:
+            n = todo.pop()
+            self.nodes.append(n)
+            if isinstance(n, (ast.FunctionDef, ast.AsyncFunctionDef)):
+                self.defs.setdefault(n.name, []).append(n)
+                continue
+            if isinstance(n, ast.ClassDef):
+                self.stores[n.name] = self.stores.get(n.name, 0) + 1
+                continue
+            if isinstance(n, ast.Lambda):
+                continue
+            if isinstance(n, (ast.Global, ast.Nonlocal)):
+                self.complex = True
+            if isinstance(n, ast.Name) and isinstance(n.ctx, (ast.Store, ast.Del)):
+                self.stores[n.id] = self.stores.get(n.id, 0) + 1
+            if isinstance(n, (ast.Import, ast.ImportFrom)):
+                for al in n.names:
+                    nm = (al.asname or al.name).split('.')[0]
+                    self.stores[nm] = self.stores.get(nm, 0) + 1
+            if isinstance(n, ast.ExceptHandler) and n.name:
+                self.stores[n.name] = self.stores.get(n.name, 0) + 1
+            if isinstance(n, ast.Assign) and len(n.targets) == 1 and isinstance(n.targets[0], ast.Name) and isinstance(n.value, ast.Call) \
+                    and isinstance(n.value.func, ast.Attribute) and n.value.func.attr == '__new__':
+                self.new_locals[n.targets[0].id] = self.new_locals.get(n.targets[0].id, 0) + 1
+            todo.extend(reversed(list(ast.iter_child_nodes(n))))
+
+    def binds(self, name):
+        return name in self.all_params or name in self.defs or self.stores.get(name, 0) > 0
+
+    def the_def(self, name):
+        """the nested function `name` if that is the only binding of the name in this scope"""
+        if name in self.all_params or self.stores.get(name, 0) or len(self.defs.get(name, ())) != 1:
+            return None
+        d = self.defs[name][0]
+        return d if isinstance(d, ast.FunctionDef) else None
+
+    def new_instance(self, name):
+        """`name` is bound exactly once in this scope, by `name = <class>.__new__(...)`: an instance of the class being constructed"""
+        return self.new_locals.get(name, 0) == 1 and self.stores.get(name, 0) == 1 and name not in self.all_params and name not in self.defs
+
+
+class Expansion:
+    """The text of the function under contract WITH the text of every function it calls that the engine executes in place: nested
+    functions, undecorated helper functions of the same module, helper methods of the same class called on the receiver (or on an
+    instance made by `__new__`), sibling nested functions of the enclosing function -- resolved statically, by name, under the same
+    conditions as `Interp.call_closure` / `Interp.helper_closure` apply at run time.  Contract clauses are addressed by ordinals IN
+    THIS EXPANSION (`loop #k`, `ListComp#k`, `Accumulator#k`, `If#k`, `assert#k`): a loop, comprehension or statement is the same
+    clause's wherever it lives -- in the function itself or in a helper it was moved to -- and a helper called twice contributes its
+    text twice (a node is identified by the chain of call sites that leads to it plus the node itself).
+      * loops: breadth-first over the function (the historical numbering of `ast.walk`), the body of a callee standing at the place
+        and depth of the STATEMENT that contains the call, right after that statement;
+      * comprehensions, statements, accumulator loops: source order, the body of a callee standing where the call expression ends.
+    A nested function that is called in place somewhere is numbered at its call sites only; one that is only handed around (a sort
+    key, a returned closure) stays numbered where it is defined.  Reading the expansion wrongly can only lose obligations: a loop that
+    gets no clause (or another loop's clause) stops generation or fails its own entry / preservation obligations."""
+
+    MAX_DEPTH = 4
+
+    def __init__(self, x, env=None, loops=None):
+        self.x = x
+        self.env0 = env if env is not None else {}
+        self.conf = loops or {}
+        self.enabled = self.conf.get('inline_helpers', True)
+        self.scopes = {}
+        self.parent = {}             # id(nested def) -> the function it is defined in
+        self.kind = {id(x.node): 'unit'}
+        self.callee = {}             # (chain, id(call)) -> (def node, kind)
+        self.loop_ordinals, self.stmt_ordinals, self.accumulator_ordinals = {}, {}, {}
+        self.loops = []              # [(chain, loop node)] by ordinal
+        self.module_defs = None
+        self.expanded_defs = set()
+        for final in (False, True):
+            self.callee.clear()
+            self._number_loops()
+            self._number_source_order()
+            self.expanded_defs = {id(d) for d, k in self.callee.values() if k == 'nested'}
+        self.sites = set(self.callee)
+
+    # ---- scopes and static resolution
+    def scope(self, fn):
+        s = self.scopes.get(id(fn))
+        if s is None:
+            s = self.scopes[id(fn)] = _Scope(fn)
+            for ds in s.defs.values():
+                for d in ds:
+                    self.parent[id(d)] = fn
+                    self.kind.setdefault(id(d), 'nested')
+        return s
+
+    def lexical(self, fn):
+        out = [fn]
+        while id(out[-1]) in self.parent:
+            out.append(self.parent[id(out[-1])])
+        return out
+
+    def _module_def(self, name):
+        if self.module_defs is None:
+            self.module_defs = {}
+            rel = getattr(self.x, 'relpath', None)
+            if rel:
+                from . import extract as _x
+                try:
+                    _, tree = _x.parse_file(rel)
+                    for st in tree.body:
+                        if isinstance(st, ast.FunctionDef):
+                            self.module_defs.setdefault(st.name, []).append(st)
+                        elif isinstance(st, ast.Assign):
+                            for t in st.targets:
+                                if isinstance(t, ast.Name):
+                                    self.module_defs.setdefault('=' + t.id, []).append(st)
+                except Exception:
+                    pass
+        return self.module_defs.get(name, [])
+
+    def resolve(self, call, fn):
+        """the function definition a call expression in the text of `fn` is executed in place from, with its kind
+        ('nested' | 'sibling' | 'module' | 'method'), or None"""
+        if not self.enabled:
+            return None
+        f = call.func
+        lex = self.lexical(fn)
+        root = lex[-1]
+        rkind = self.kind.get(id(root), 'unit')
+        if isinstance(f, ast.Name):
+            name = f.id
+            for sc in lex:
+                s = self.scope(sc)
+                if s.complex:
+                    return None
+                d = s.the_def(name)
+                if d is not None:
+                    a = d.args
+                    if d.decorator_list or a.vararg or a.kwarg or a.kwonlyargs or a.posonlyargs:
+                        return None
+                    return d, 'nested'
+                if s.binds(name):
+                    return None
+            if rkind in ('unit', 'sibling'):
+                if name in self.env0:
+                    return None
+                enc = getattr(self.x, 'enclosing', None)
+                if enc is not None:
+                    es = self.scope(enc)
+                    d = es.the_def(name)
+                    if d is not None and d is not self.x.node and not es.complex:
+                        ok, gen = helper_shape_ok(d, False)
+                        if not ok or gen or d.decorator_list or d.args.kwonlyargs:
+                            return None
+                        return d, 'sibling'
+                    if es.binds(name):
+                        return None
+            if name in self.conf.get('globals', {}) or name in EXC:
+                return None
+            if self.conf.get('module_constants') and self._module_def('=' + name):
+                return None
+            found = self._module_def(name)
+            if len(found) != 1 or found[0] is self.x.node or found[0].decorator_list:
+                return None
+            ok, gen = helper_shape_ok(found[0], False)
+            return (found[0], 'module') if ok else None
+        if isinstance(f, ast.Attribute) and isinstance(f.value, ast.Name) and self.x.cls is not None and rkind in ('unit', 'method'):
+            recv, attr = f.value.id, f.attr
+            rk = None
+            for sc in lex:
+                s = self.scope(sc)
+                if s.complex:
+                    return None
+                if sc is root and s.params and s.params[0] == recv and not (rkind == 'method' and _deco_names(root) == ['staticmethod']):
+                    rk = 'first'
+                    break
+                if s.new_instance(recv):
+                    rk = 'instance'
+                    break
+                if s.binds(recv):
+                    return None
+            if rk is None:
+                return None
+            if rkind == 'unit' and rk == 'first':
+                v = self.env0.get(recv)
+                if isinstance(v, ObjV) and (attr in v.fields or '__getattr__' in v.fields):
+                    return None        # the contract knows the attribute
+            found = [st for st in self.x.cls.body if isinstance(st, ast.FunctionDef) and st.name == attr]
+            if len(found) != 1 or found[0] is self.x.node:
+                return None
+            deco, own = _deco_names(found[0]), _deco_names(self.x.node)
+            if deco is None or own is None:
+                return None
+            if rkind == 'method' and rk == 'first':
+                # `self` of a helper method executed in place is the receiver it was called on: an instance (or the class object when
+                # the helper is a classmethod called from a classmethod)
+                hd = _deco_names(root)
+                rk = 'first' if hd == ['classmethod'] else ('instance' if own in (['classmethod'], ['staticmethod']) else 'first')
+            if not method_helper_ok(deco, own, rk):
+                return None
+            ok, gen = helper_shape_ok(found[0], True)
+            return (found[0], 'method') if ok else None
+        return None
+
+    def _enter(self, call, fn, chain):
+        """the callee of a call in the text of `fn` (reached through `chain`) if it is expanded here, registered as a call site"""
+        if len(chain) >= self.MAX_DEPTH:
+            return None
+        r = self.resolve(call, fn)
+        if r is None:
+            return None
+        d, kind = r
+        if any(self.callee.get((chain[:i], chain[i]), (None,))[0] is d for i in range(len(chain))):
+            return None              # recursion
+        self.callee[(chain, id(call))] = (d, kind)
+        if kind != 'nested':
+            self.kind[id(d)] = kind
+        return d
+
+    @staticmethod
+    def _header_calls(st):
+        """the call expressions of a statement's own expressions (not of the statements nested in it, not inside a lambda), in the
+        order in which their evaluation ENDS"""
+        out = []
+        todo = [c for c in ast.iter_child_nodes(st) if not isinstance(c, (ast.stmt, ast.excepthandler, getattr(ast, 'match_case', ())))]
+        while todo:
+            n = todo.pop()
+            if isinstance(n, ast.Lambda):
+                continue
+            if isinstance(n, ast.Call):
+                out.append(n)
+            todo.extend(ast.iter_child_nodes(n))
+        out.sort(key=lambda c: (c.end_lineno, c.end_col_offset))
+        return out
+
+    # ---- loops: breadth-first, callee bodies at the place and depth of the calling statement
+    def _number_loops(self):
+        from collections import deque
+        self.loop_ordinals.clear()
+        del self.loops[:]
+        queue = deque()
+        generator_loop = {}
+
+        def visit(node, chain, fn):
+            if isinstance(node, (ast.FunctionDef, ast.AsyncFunctionDef)):
+                if id(node) in self.expanded_defs:
+                    return                     # numbered where it is called
+                self.scope(fn)
+                for c in ast.iter_child_nodes(node):
+                    queue.append((c, chain, node))
+                return
             if isinstance(node, (ast.While, ast.For)):
                 if isinstance(node, ast.For) and accumulator_shape(node) is not None:
                     # `acc = []; for x in it: [y = e;] [if c:] acc.append(e)` is a comprehension written as a loop: it takes no loop
                     # contract (closed form, see accumulator_loop) and does not shift the ordinals of the other loops
-                    self.loop_ordinals[id(node)] = -1
+                    self.loop_ordinals[(chain, id(node))] = -1
+                elif generator_loop is not None and node is generator_loop.get(id(fn)):
+                    self.loop_ordinals[(chain, id(node))] = -1      # the one loop of a generator helper that IS a generator expression
+                else:
+                    self.loop_ordinals[(chain, id(node))] = len(self.loops)
+                    self.loops.append((chain, node))
+            if isinstance(node, ast.stmt):
+                # (convention: the calling statement first -- it may be a loop itself --, then the text of what it calls)
+                for call in self._header_calls(node):
+                    d = self._enter(call, fn, chain)
+                    if d is not None:
+                        if self.callee[(chain, id(call))][1] == 'module' and _is_generator(d):
+                            b = [x_ for x_ in _body_without_docstring(d) if not (isinstance(x_, ast.Return) and x_.value is None)]
+                            if len(b) == 1 and isinstance(b[0], ast.For) and yield_shape(b[0]) is not None:
+                                generator_loop[id(d)] = b[0]
+                        for st in _body_without_docstring(d):
+                            visit(st, chain + (id(call),), d)
+            for c in ast.iter_child_nodes(node):
+                queue.append((c, chain, fn))
+        for c in ast.iter_child_nodes(self.x.node):
+            queue.append((c, (), self.x.node))
+        while queue:
+            visit(*queue.popleft())
+
+    # ---- comprehensions, statements, accumulator loops: source order, callee bodies where the call expression ends
+    def _number_source_order(self):
+        self.stmt_ordinals.clear()
+        self.accumulator_ordinals.clear()
+        counts = {}
+        comps, stmts, accs = [], [], []
+
+        def segment(fn, chain, body_nodes):
+            items = []
+
+            def gather(f, nodes):
+                """own nodes of f (and of the nested functions that are not expanded at a call site)"""
+                todo = list(reversed(nodes))
+                while todo:
+                    n = todo.pop()
+                    if isinstance(n, (ast.FunctionDef, ast.AsyncFunctionDef)):
+                        items.append(((n.lineno, n.col_offset), 0, n, f))
+                        if id(n) not in self.expanded_defs:
+                            self.scope(f)
+                            gather(n, list(ast.iter_child_nodes(n)))
+                        continue
+                    if hasattr(n, 'lineno'):
+                        if isinstance(n, (ast.stmt, ast.ListComp, ast.GeneratorExp, ast.SetComp, ast.DictComp)):
+                            items.append(((n.lineno, n.col_offset), 0, n, f))
+                        if isinstance(n, ast.Call) and not in_lambda.get(id(n)):
+                            items.append(((n.end_lineno, n.end_col_offset), 1, n, f))
+                    if isinstance(n, ast.Lambda):
+                        for c in ast.walk(n):
+                            in_lambda[id(c)] = True
+                    todo.extend(reversed(list(ast.iter_child_nodes(n))))
+            in_lambda = {}
+            gather(fn, body_nodes)
+            items.sort(key=lambda it: (it[0], it[1]))
+            for _, is_call, n, f in items:
+                if is_call:
+                    d = self._enter(n, f, chain)
+                    if d is not None:
+                        segment(d, chain + (id(n),), list(_body_without_docstring(d)))
                     continue
-                self.loop_ordinals[id(node)] = n
-                n += 1
+                if isinstance(n, (ast.ListComp, ast.GeneratorExp, ast.SetComp, ast.DictComp)):
+                    comps.append((chain, n))
+                else:
+                    stmts.append((chain, n))
+                    if isinstance(n, ast.For) and self.loop_ordinals.get((chain, id(n))) == -1:
+                        accs.append((chain, n))
+        stmts.append(((), self.x.node))            # (the function itself is FunctionDef#0, as in a walk over the whole node)
+        segment(self.x.node, (), list(ast.iter_child_nodes(self.x.node)))
+        for chain, n in comps + stmts:
+            t = type(n).__name__
+            self.stmt_ordinals[(chain, id(n))] = '%s#%d' % (t, counts.get(t, 0))
+            counts[t] = counts.get(t, 0) + 1
+        for i, (chain, n) in enumerate(accs):
+            self.accumulator_ordinals[(chain, id(n))] = 'Accumulator#%d' % i
+
+
+def _body_without_docstring(fn):
+    body = fn.body
+    if body and isinstance(body[0], ast.Expr) and isinstance(body[0].value, ast.Constant) and isinstance(body[0].value.value, str):
+        body = body[1:]
+    return body
+
+
+def expanded_loops(extracted, env=None, loops=None):
+    """the loop statements of the function under contract in the order of their clause ordinals, those of the helpers executed in
+    place included (Expansion): for contracts that read the roles of loop variables off the real code"""
+    return [node for _, node in Expansion(extracted, env, loops).loops]
+
+
+class Interp:
+    def __init__(self, eng, path, loops, extracted, env=None):
+        self.eng, self.path, self.loops, self.x = eng, path, loops or {}, extracted
+        self.try_stack = []         # (handlers, env) of the try statements whose try suite is being executed, innermost last
+        # clause ordinals: loops, comprehensions, statements and accumulator loops are numbered in the EXPANSION of the function (its own
+        # text with the text of the functions executed in place at their call sites, see Expansion); a node is looked up under the
+        # chain of call sites through which it is being executed
+        self.exp = Expansion(extracted, env, self.loops)
+        self.call_chain = ()
+        self._pending_call = None
+        self.env0 = env if env is not None else {}
+        self.loop_ordinals = {nid: n for (chain, nid), n in self.exp.loop_ordinals.items() if not chain}      # the function's own loops, by id(node)
+        self.stmt_ordinals = {nid: n for (chain, nid), n in self.exp.stmt_ordinals.items() if not chain}
+        self.accumulator_ordinals = {nid: n for (chain, nid), n in self.exp.accumulator_ordinals.items() if not chain}
         self.walrus_in_comprehension = set()
         self.consumers = {}
         self.index_expressions(extracted.node)
-        accs = sorted((x for x in ast.walk(extracted.node) if isinstance(x, ast.For) and self.loop_ordinals.get(id(x)) == -1),
-                      key=lambda x: (x.lineno, x.col_offset))
-        self.accumulator_ordinals = {id(x): 'Accumulator#%d' % i for i, x in enumerate(accs)}      # source order
-        for node in sorted((x for x in ast.walk(extracted.node)
-                            if isinstance(x, (ast.ListComp, ast.GeneratorExp, ast.SetComp, ast.DictComp))),
-                           key=lambda x: (x.lineno, x.col_offset)):
-            t = type(node).__name__
-            self.stmt_ordinals[id(node)] = '%s#%d' % (t, counts.get(t, 0))
-            counts[t] = counts.get(t, 0) + 1
-        for node in sorted((x for x in ast.walk(extracted.node) if isinstance(x, ast.stmt)),
-                           key=lambda x: (x.lineno, x.col_offset)):
-            t = type(node).__name__
-            self.stmt_ordinals[id(node)] = '%s#%d' % (t, counts.get(t, 0))
-            counts[t] = counts.get(t, 0) + 1
+
+    def loop_ordinal(self, st):
+        """clause ordinal of a loop statement being executed: its number in the expansion (-1: accumulator-shaped, a closed form; None: a
+        loop the expansion does not reach -- it runs only over a sequence of concrete length)"""
+        return self.exp.loop_ordinals.get((self.call_chain, id(st)))
+
+    def stmt_ordinal(self, node):
+        """'If#0', 'ListComp#2', ... of a statement / comprehension being executed (ordinal among the nodes of its type in the expansion)"""
+        return self.exp.stmt_ordinals.get((self.call_chain, id(node)))
+
+    def accumulator_ordinal(self, st):
+        return self.exp.accumulator_ordinals.get((self.call_chain, id(st)))
+
+    def enter_call(self, clo):
+        """the chain of call sites under which the body of a function executed in place is looked up: the current chain plus the call
+        expression being evaluated when the expansion resolved that call to this function; otherwise the function is numbered where
+        it is defined (a closure invoked by a contract, e.g. a sort key)"""
+        site, self._pending_call = self._pending_call, None
+        key = (self.call_chain, id(site)) if site is not None else None
+        if key is not None and self.exp.callee.get(key, (None,))[0] is clo.node:
+            return self.call_chain + (id(site),)
+        return getattr(clo, 'def_chain', ())
 
     def index_expressions(self, root):
         """static facts about the expressions of a function text that is executed (the function under contract, a helper executed in
@@ -898,15 +1296,12 @@ class Interp:
         self.consumers.update(consuming_positions(root))
 
     def index_helper(self, fn):
-        """the loops of a helper executed in place: an accumulator-shaped loop is a closed form (ordinal -1, as in the function under
-        contract); any other loop has no contract clause (ordinal None: it runs only over a sequence of concrete length)"""
-        if getattr(fn, '_pyvc_indexed_by', None) is self:
-            return
-        fn._pyvc_indexed_by = self
-        for node in ast.walk(fn):
-            if isinstance(node, (ast.For, ast.While)):
-                self.loop_ordinals[id(node)] = -1 if isinstance(node, ast.For) and accumulator_shape(node) is not None else None
-        self.index_expressions(fn)
+        """static facts about the expressions of a helper executed in place (its loops, comprehensions and statements have their
+        ordinals from the expansion)"""
+        done = self.__dict__.setdefault('_indexed_helpers', set())
+        if id(fn) not in done:
+            done.add(id(fn))
+            self.index_expressions(fn)
 
     def call_closure(self, clo, args, kwargs):
         """Call of a nested function of the function under contract: its body is executed in place (it is part of the
@@ -915,6 +1310,13 @@ class Interp:
             raise Unsupported('call of nested function %s with a complex signature' % clo.node.name)
         if getattr(clo, 'generator_helper', False):
             raise Unsupported('generator helper %s whose value is not consumed at the call site' % clo.node.name)
+        outer_chain, self.call_chain = self.call_chain, self.enter_call(clo)
+        try:
+            return self.run_closure(clo, args, kwargs)
+        finally:
+            self.call_chain = outer_chain
+
+    def run_closure(self, clo, args, kwargs):
         inner = self.bind_closure_args(clo, args, kwargs)
         body = clo.node.body
         if body and isinstance(body[0], ast.Expr) and isinstance(body[0].value, ast.Constant) and isinstance(body[0].value.value, str):
@@ -972,65 +1374,76 @@ class Interp:
 
     def helper_closure(self, name, receiver):
         """A helper the function under contract calls and the contract does not know (typically the product of an `extract function`
-        refactoring): a plain module-level function of the same file (receiver None), or a plain method of the same class called on the
-        first parameter of the method under contract (receiver = that object).  Its real body is executed in place, like a nested
-        function: it is part of the verified text, every obligation downstream is generated from what it really does.  Only
-        undecorated helpers with a simple signature and without while / try / with / global / nonlocal qualify; a `for` loop inside runs
-        like a loop without a contract clause in the function under contract (over a sequence of concrete length, or as the closed form
-        of an accumulator loop).  A GENERATOR helper is executed in place only where its value is consumed at the call site, see
-        `call_generator_helper`.  Anything else stays Unsupported (ungenerated)."""
+        refactoring).  Its real body is executed in place, like a nested function: it is part of the verified text, every obligation
+        downstream is generated from what it really does.  Candidates:
+          * a plain module-level function of the same file (receiver None);
+          * when the function under contract is itself a nested function: a sibling nested function of the enclosing function (receiver
+            None) -- its free variables are those of the enclosing scope, which the harness gives as the free variables of the function
+            under contract (the parameters and locals of that function are not visible to the sibling);
+          * a method of the same class called on the first parameter of the method under contract, or on an object the harness marks as
+            another instance of that class (`own_instance`, e.g. the result of `object.__new__(cls)`): receiver = that object.
+        Only undecorated helpers (methods: also @staticmethod / @classmethod, see method_helper_ok) with a simple signature and without
+        try / with / global / nonlocal qualify.  A loop inside is a loop of the expansion (Expansion): it runs under the clause of its
+        ordinal there, over a sequence of concrete length, or as the closed form of an accumulator loop.  A GENERATOR helper is executed
+        in place only where its value is consumed at the call site, see `call_generator_helper`.  Anything else stays Unsupported."""
         if not self.loops.get('inline_helpers', True):
             return None
         rel = getattr(self.x, 'relpath', None)
         if not rel:
             return None
-        from . import extract as _x
-        try:
-            _, tree = _x.parse_file(rel)
-        except Exception:
+        if getattr(self, '_helper_depth', 0) > 3:
             return None
-        scope = tree.body
+        own_deco = _deco_names(self.x.node)
+        if own_deco is None:
+            return None
         if receiver is not None:
             a0 = self.x.node.args.posonlyargs + self.x.node.args.args
-            if self.x.cls is None or not a0 or getattr(self, 'receiver0', None) is not receiver:
+            is_first = a0 and getattr(self, 'receiver0', None) is receiver
+            if self.x.cls is None or not (is_first or getattr(receiver, 'own_instance', False)):
                 return None
-            scope = self.x.cls.body
-        found = [st for st in scope if isinstance(st, ast.FunctionDef) and st.name == name]
-        if len(found) != 1:
-            return None
-        fn = found[0]
-        if fn is self.x.node:
-            return None
-        # decorators: none, or exactly @staticmethod / @classmethod on a helper called on the receiver.  A classmethod helper gets the
-        # receiver itself as `cls` only when the function under contract is a classmethod too (then the receiver IS the class object)
-        deco = [d.id for d in fn.decorator_list if isinstance(d, ast.Name)]
-        if len(deco) != len(fn.decorator_list) or deco not in ([], ['staticmethod'], ['classmethod']):
-            return None
-        own_deco = [d.id for d in self.x.node.decorator_list if isinstance(d, ast.Name)]
-        if deco and receiver is None:
-            return None
-        if deco == ['classmethod'] and own_deco != ['classmethod']:
-            return None
-        if deco == [] and receiver is not None and own_deco in (['classmethod'], ['staticmethod']):
-            return None        # cls.method(...) of a plain method: an unbound call, not modelled
+            found = [st for st in self.x.cls.body if isinstance(st, ast.FunctionDef) and st.name == name]
+            if len(found) != 1 or found[0] is self.x.node:
+                return None
+            fn = found[0]
+            deco = _deco_names(fn)
+            if deco is None or not method_helper_ok(deco, own_deco, 'first' if is_first else 'instance'):
+                return None
+            ok, gen = helper_shape_ok(fn, True)
+            if not ok:
+                return None
+            parent_env = {}
+        else:
+            fn = None
+            enc = getattr(self.x, 'enclosing', None)
+            if enc is not None:
+                es = _Scope(enc)
+                d = es.the_def(name)
+                if d is not None and d is not self.x.node and not es.complex and not d.decorator_list and not d.args.kwonlyargs:
+                    fn = d
+                    # the enclosing scope as the harness gives it: the initial environment without the names the function under contract
+                    # binds itself (its parameters and locals are not visible to a sibling)
+                    own = _Scope(self.x.node)
+                    parent_env = {k: v for k, v in self.env0.items() if not own.binds(k)}
+                elif es.binds(name):
+                    return None
+            if fn is None:
+                from . import extract as _x
+                try:
+                    _, tree = _x.parse_file(rel)
+                except Exception:
+                    return None
+                found = [st for st in tree.body if isinstance(st, ast.FunctionDef) and st.name == name]
+                if len(found) != 1 or found[0] is self.x.node or found[0].decorator_list:
+                    return None
+                fn = found[0]
+                parent_env = {}
+            ok, gen = helper_shape_ok(fn, False)
+            if not ok or (gen and parent_env):
+                return None
+            deco = []
         a = fn.args
-        if a.vararg or a.kwarg or a.posonlyargs:
-            return None
-        depth = getattr(self, '_helper_depth', 0)
-        if depth > 3:
-            return None
-        gen = _is_generator(fn)
-        for n in ast.walk(fn):
-            if isinstance(n, (ast.While, ast.AsyncFor, ast.Global, ast.Nonlocal, ast.Try, ast.With, ast.AsyncWith, ast.Await,
-                              ast.AsyncFunctionDef, ast.ClassDef)):
-                return None
-            if gen and (isinstance(n, ast.YieldFrom) or (isinstance(n, ast.Return) and n.value is not None)
-                        or (isinstance(n, (ast.FunctionDef, ast.Lambda)) and n is not fn)):
-                return None        # a generator helper is its sequence of plain `yield e` statements, nothing else
-        if gen and receiver is not None:
-            return None
         self.index_helper(fn)
-        clo = ClosureV(fn, ChainEnv({}))
+        clo = ClosureV(fn, ChainEnv(parent_env))
         clo.callable = True
         clo.defaults = [self.eval(d, {}) for d in a.defaults]
         clo.kw_defaults = {arg.arg: self.eval(d, {}) for arg, d in zip(a.kwonlyargs, a.kw_defaults) if d is not None}
@@ -1058,6 +1471,13 @@ class Interp:
               precedes everything after the call in both evaluation orders, and an exception of the body leaves at the same point.
               With an iterating consumer (`for`, a comprehension, `yield from`) the consumer's code would run between the segments:
               unsupported."""
+        outer_chain, self.call_chain = self.call_chain, self.enter_call(clo)
+        try:
+            return self.run_generator_helper(clo, args, kwargs, consumer)
+        finally:
+            self.call_chain = outer_chain
+
+    def run_generator_helper(self, clo, args, kwargs, consumer):
         fn = clo.node
         inner = self.bind_closure_args(clo, args, kwargs)
         body = list(fn.body)
@@ -1133,7 +1553,7 @@ class Interp:
         p = self.path
         hooks = self.loops.get('before')
         if hooks:
-            h = hooks.get(self.stmt_ordinals.get(id(st)))
+            h = hooks.get(self.stmt_ordinal(st))
             if h is not None:
                 h(p, EnvView(env, p))      # `use lemma` hints attached to a statement ordinal
         if isinstance(st, ast.Expr):
@@ -1214,7 +1634,7 @@ class Interp:
         elif isinstance(st, ast.Assert):
             v = self.eval(st.test, env)
             # named by the ordinal among the function's assert statements (a line offset would move with every edit above it)
-            p.oblige('assert#%s' % str(self.stmt_ordinals.get(id(st), 'Assert#?')).split('#')[-1], 'assert', truthy(v))
+            p.oblige('assert#%s' % str(self.stmt_ordinal(st) or 'Assert#?').split('#')[-1], 'assert', truthy(v))
         elif isinstance(st, ast.Try):
             self.exec_try(st, env)
         elif isinstance(st, ast.With):
@@ -1255,6 +1675,7 @@ class Interp:
             if st.decorator_list:
                 raise Unsupported('decorated nested function %s' % st.name)
             clo = ClosureV(st, env)
+            clo.def_chain = self.call_chain
             a = st.args
             if a.vararg or a.kwarg or a.kwonlyargs or a.posonlyargs:
                 clo.callable = False
@@ -1341,7 +1762,7 @@ class Interp:
 
     def exec_while(self, st, env):
         p = self.path
-        n = self.loop_ordinals[id(st)]
+        n = self.loop_ordinal(st)
         spec = self.loops.get(n) if n is not None else None
         if spec is None:
             if self.unroll_while(st, env):
@@ -1475,10 +1896,12 @@ class Interp:
 
     def exec_for(self, st, env):
         p = self.path
-        n = self.loop_ordinals[id(st)]
+        n = self.loop_ordinal(st)
         it = _chars(self.eval(st.iter, env))
         if n == -1 and self.accumulator_form(st, it, env):
             return
+        if isinstance(it, ObjV) and '__iter__' in it.fields:
+            it = self.call(it.fields['__iter__'], [it], {})      # an iterable object of the contract: a concrete list of items, or a contract iterable
         if isinstance(it, (TupleV, ListV)):
             items = list(it.items)       # A-SEQ: a body that mutates the iterated list is rejected
             broke = False
@@ -1498,8 +1921,6 @@ class Interp:
             return
         if st.orelse:
             raise Unsupported('for/else over a sequence of symbolic length')
-        if isinstance(it, ObjV) and '__iter__' in it.fields:
-            it = self.call(it.fields['__iter__'], [it], {})
         orig_it = it
         if isinstance(it, SeqV):
             it = IterV(it.at, it.length, it.name)
@@ -1510,7 +1931,7 @@ class Interp:
             # of the contract, e.g. `self`): it may run under a clause keyed by its accumulator ordinal, 'Accumulator#k'
             if self.accumulator_loop(st, orig_it, env):
                 return
-            n = self.accumulator_ordinals.get(id(st))
+            n = self.accumulator_ordinal(st)
         spec = self.loops.get(n) if n is not None else None
         if spec is None:
             if self.accumulator_loop(st, orig_it, env):
@@ -1585,7 +2006,7 @@ class Interp:
         tests) act on it.  For a list every reference to the empty list (other locals, fields of objects: `self._items = items = []`) is
         redirected to the heap object and the old value is made unusable (a reference that was missed cannot be read silently)."""
         cspecs = self.loops.get('comprehension_loops', {})
-        live = set(self.stmt_ordinals.values())
+        live = set(self.exp.stmt_ordinals.values())
         used = self.__dict__.setdefault('_cspecs_used', set())
         for kind, attr in (('SetComp#', 'add'), ('ListComp#', 'append')):
             unused = [k for k in cspecs if k not in live and k.startswith(kind) and k not in used]
@@ -1677,7 +2098,7 @@ class Interp:
         """`accumulator_form` clause, the counterpart of `closed_form` for a comprehension spelled as an accumulator loop: the
         contract gives the list the loop builds (keyed 'Accumulator#k', k-th accumulator-shaped loop in source order) from the
         form-independent view of the comprehension (CompView); the accumulator variable is bound to it."""
-        hook = self.loops.get('accumulator_form', {}).get(self.accumulator_ordinals.get(id(st)))
+        hook = self.loops.get('accumulator_form', {}).get(self.accumulator_ordinal(st))
         if hook is None:
             return False
         shape = self.accumulator_parts(st, env)
@@ -1727,7 +2148,9 @@ class Interp:
             return self.eval(elt_node, inner)
         if any(s_[0] == 'if' for s_ in steps):
             return FilterV(it, lambda k: run(k, 'cond'), lambda k: run(k, 'elt'))
-        return IterV(lambda k: run(k, 'elt'), it.length, 'map(%s)' % it.name, getattr(it, 'facts', None))
+        r = IterV(lambda k: run(k, 'elt'), it.length, 'map(%s)' % it.name, getattr(it, 'facts', None))
+        r.index_shift = getattr(it, 'index_shift', 0)
+        return r
 
     def assign(self, tgt, v, env):
         if isinstance(tgt, ast.Name):
@@ -1749,14 +2172,7 @@ class Interp:
             for t, x in zip(tgt.elts, items):
                 self.assign(t, x, env)
         elif isinstance(tgt, ast.Attribute):
-            o = self.eval(tgt.value, env)
-            if not isinstance(o, ObjV):
-                raise Unsupported('attribute store on %r' % (o,))
-            hook = o.fields.get('__setattr__')
-            if hook is not None:
-                hook(self.path, o, tgt.attr, v)
-            else:
-                o.fields[tgt.attr] = v
+            self.store_attr(self.eval(tgt.value, env), tgt.attr, v)
         elif isinstance(tgt, ast.Subscript):
             o = self.eval(tgt.value, env)
             i = self.eval(tgt.slice, env)
@@ -1773,6 +2189,16 @@ class Interp:
                 raise Unsupported('subscript store')
         else:
             raise Unsupported('assignment target %s' % type(tgt).__name__)
+
+    def store_attr(self, o, attr, v):
+        """`o.attr = v` (also `setattr(o, 'attr', v)` with a literal name)"""
+        if not isinstance(o, ObjV):
+            raise Unsupported('attribute store on %r' % (o,))
+        hook = o.fields.get('__setattr__')
+        if hook is not None:
+            hook(self.path, o, attr, v)
+        else:
+            o.fields[attr] = v
 
     def unpack(self, v, n):
         if isinstance(v, ObjV) and hasattr(v, 'unpack_items'):
@@ -1807,6 +2233,9 @@ class Interp:
                 raise PyRaise('ValueError')
             mid = SeqV(lambda t, _v=v: _v.at(t + nb), v.length - nb - na, '%s[%d:%s]' % (v.name, nb, -na if na else ''))
             mid.star_of = (v, nb, na)
+            # a hint for library contracts that quantify over the items (all / any): item t is item t + nb of `v`; a quantifier whose
+            # bound variable is the position in `v` has the terms of `v` as patterns (logically the same statement for ANY shift)
+            mid.index_shift = getattr(v, 'index_shift', 0) + nb
             return ([v.at(IntVal(i)) for i in range(nb)], mid, [v.at(v.length - na + i) for i in range(na)])
         raise Unsupported('starred unpacking of %r' % (v,))
 
@@ -1953,8 +2382,13 @@ class Interp:
                     raise Unsupported('generator helper %s whose value is not consumed at the call site' % f.node.name)
                 if any(isinstance(a, ast.Starred) for a in node.args) or any(k.arg is None for k in node.keywords):
                     raise Unsupported('generator helper called with unpacked arguments')
-                return self.call_generator_helper(f, [self.eval(a, env) for a in node.args],
-                                                  {k.arg: self.eval(k.value, env) for k in node.keywords}, consumer)
+                gargs = [self.eval(a, env) for a in node.args]
+                gkw = {k.arg: self.eval(k.value, env) for k in node.keywords}
+                self._pending_call = node
+                try:
+                    return self.call_generator_helper(f, gargs, gkw, consumer)
+                finally:
+                    self._pending_call = None
             if isinstance(node.func, ast.Name) and node.func.id == 'super' and not node.args and not node.keywords:
                 # zero-argument super(): bound to the CURRENT value of the first parameter
                 a0 = (self.x.node.args.posonlyargs + self.x.node.args.args)
@@ -1989,7 +2423,11 @@ class Interp:
                     kwargs.update(kv.items)
                     continue
                 kwargs[k.arg] = self.eval(k.value, env)
-            return self.call(f, args, kwargs)
+            self._pending_call = node        # the call site, for the function executed in place that this call may reach (enter_call)
+            try:
+                return self.call(f, args, kwargs)
+            finally:
+                self._pending_call = None
         if isinstance(node, (ast.ListComp, ast.GeneratorExp, ast.SetComp)):
             return self.comprehension(node, env)
         if isinstance(node, ast.DictComp):
@@ -2054,14 +2492,14 @@ class Interp:
     def comprehension(self, node, env):
         """Comprehensions over concrete-length sequences are unrolled (element-wise closed form);
         anything else must be provided by the contract as a named closed form."""
-        hook = self.loops.get('closed_form', {}).get(self.stmt_ordinals.get(id(node)))
+        hook = self.loops.get('closed_form', {}).get(self.stmt_ordinal(node))
         if hook is not None:
             return hook(self, env, node)
         if len(node.generators) != 1:
             raise Unsupported('nested comprehension')
         g = node.generators[0]
         it = _chars(self.eval(g.iter, env))
-        cspec = self.loops.get('comprehension_loops', {}).get(self.stmt_ordinals.get(id(node)))
+        cspec = self.loops.get('comprehension_loops', {}).get(self.stmt_ordinal(node))
         if cspec is not None:
             return self.comprehension_loop(node, g, it, env, cspec)
         if isinstance(it, ObjV) and '__iter__' in it.fields:
@@ -2073,7 +2511,9 @@ class Interp:
                 self.assign(g.target, _it.at(k), inner)
                 return self.eval(node.elt, inner)
             facts = getattr(it, 'facts', None)
-            return IterV(at, it.length, 'map(%s)' % it.name, facts)
+            r = IterV(at, it.length, 'map(%s)' % it.name, facts)
+            r.index_shift = getattr(it, 'index_shift', 0)
+            return r
         if isinstance(it, FilterV) and not g.ifs and isinstance(node, (ast.GeneratorExp, ast.ListComp)):
             def elt2(k, _it=it, _env=flat_env(env)):
                 inner = dict(_env)
@@ -2117,7 +2557,7 @@ class Interp:
             it = IterV(it.at, it.length, it.name)
         if not isinstance(it, IterV):
             raise Unsupported('comprehension loop over %s' % type(it).__name__)
-        tag = self.stmt_ordinals.get(id(node))
+        tag = self.stmt_ordinal(node)
         p.assume(it.length >= 0)
         if getattr(spec, 'on_entry', None):
             spec.on_entry(p, env)
